@@ -117,6 +117,14 @@ def c10_oracle(op, impl):
         return None
     if "acc=1" in impl and "same=0" in impl:
         return ("a %s/%s/%s value was accepted by the %s/%s/%s parser" % (t[1], t[2], t[3], t[4], t[5], t[6]), "core/cross/%s-%s" % (t[2], t[5]))
+    # intended aliases, stated independently of the code's header constants: same protocol version, same form, and the
+    # same key class (Public ~ PkePublic, Secret ~ PkeSecret share their PASERK text form)
+    cls = {"pkepublic": "public", "pkesecret": "secret"}
+    intended = (ver_of(t[1]) == ver_of(t[4]) and t[2] == t[5] and cls.get(t[3], t[3]) == cls.get(t[6], t[6]))
+    if "acc=1" in impl and not intended:
+        return ("a %s/%s/%s value was accepted by the %s/%s/%s parser (not an intended alias)" % (t[1], t[2], t[3], t[4], t[5], t[6]), "core/cross/%s-%s" % (t[2], t[5]))
+    if "acc=0" in impl and intended and t[2] != "tok":
+        return ("a %s/%s/%s value (canonical text form, correct length) was rejected by its own %s/%s/%s parser" % (t[1], t[2], t[3], t[4], t[5], t[6]), "core/self-reject/%s" % t[2])
     return None
 
 
@@ -670,6 +678,23 @@ def c13_oracle(op, impl):
     be = t[1]
     if impl == "panic":
         return ("panic computing an id", "%s/id/panic" % be)
+    if t[0] == "o.id.spec" and impl.startswith("ok "):
+        import hashlib, base64
+        kv = dict(x.split("=") for x in impl[3:].split(" "))
+        ids, text = unhex(kv["id"]), unhex(kv["text"])
+        v = ver_of(be)
+        hdr = ("k%d." % v).encode() + {"local": b"lid.", "secret": b"sid.", "public": b"pid.", "pkesecret": b"sid.", "pkepublic": b"pid."}[t[2]]
+        want_text_hdr = ("k%d.%s." % (v, {"pkesecret": "secret", "pkepublic": "public"}.get(t[2], t[2]))).encode()
+        if not text.startswith(want_text_hdr):
+            return ("PASERK text of the key does not start with %s" % want_text_hdr.decode(), "%s/id/text-header" % be)
+        if v in (1, 3):
+            d = hashlib.sha384(hdr + text).digest()[:33]
+        else:
+            d = hashlib.blake2b(hdr + text, digest_size=33).digest()
+        want = hdr + base64.urlsafe_b64encode(d).rstrip(b"=")
+        if ids != want:
+            return ("key id is not the PASERK digest of the id header and the key's PASERK text (text of %d characters)" % len(text), "%s/id/digest" % be)
+        return None
     if t[0] == "o.id.eq" and impl != "ok same=1":
         return ("two encodings of one key give different ids", "%s/id/encoding" % be)
     if t[0] == "o.id.rel" and impl != "ok distinct=1":
@@ -721,10 +746,29 @@ def run_c04(ctx):
         return None
     run_stream(ctx, "keys", ["c08"], policy="okerr", oracle=keys_oracle, nontrivial=nt)
     run_stream(ctx, "text", ["c09"], policy="okerr", oracle=c04_oracle, nontrivial=nt)
+    # supporting run: the C-backed back ends (aws-lc, libsodium) and a sample of the others under valgrind memcheck
+    import checklib, random
+    rnd = random.Random(ctx.seed)
+    sel = []
+    for nm in ("malformed", "keys"):
+        for l in ctx.last_ops.get(nm, "").splitlines():
+            t = l.split(" ")
+            if len(t) < 2 or l.startswith("#"):
+                continue
+            cbacked = t[1] in ("v3lc", "v4s")
+            keep = (1.0 if cbacked else 0.05) if ctx.tier == "thorough" else (0.12 if cbacked else 0.01)
+            if rnd.random() < keep:
+                sel.append(l)
+    rc, valid, _ = checklib.sh([checklib.PM, "gen", "c01", "quick"], env={"VERIF_SEED": str(ctx.seed)}, timeout=600)
+    for l in valid.splitlines():
+        t = l.split(" ")
+        if len(t) > 1 and t[1] in ("v3lc", "v4s") and (ctx.tier == "thorough" or rnd.random() < 0.2):
+            sel.append(l)
+    checklib.memcheck(ctx, "c-backends", sel)
     ctx.cov["rule"] = ("every FromStr of every back end on the C09 string stream; tokens with every decoded payload length 0..700 (random / zeros / ones) for both purposes; PIE/PBKW/PKE blobs of every length 0..300 "
                        "(PBKW cost parameters inside the stated budget); every key byte string of the C08 stream and every accepted key then displayed, identified, cloned, re-parsed and used; each case under catch_unwind, "
                        "process death bisected to the offending line; distinct = (op, back end, size class, outcome)")
-    ctx.cov["partial"] = "aborts inside aws-lc/libsodium, allocator failure and memory safety of the C libraries are outside what the Lean model can exhibit; thorough tier adds a valgrind run as supporting evidence when available"
+    ctx.cov["partial"] = "aborts inside aws-lc/libsodium, allocator failure and memory safety of the C libraries are outside what the Lean model can exhibit; a valgrind memcheck run of the real library on a sample (thorough: all) of the aws-lc / libsodium inputs is supporting evidence only"
 
 
 # ------------------------------------------------------------------ C16
@@ -779,7 +823,7 @@ def run_c17(ctx):
     ctx.cov["rule"] = ("per back end: 2, 4, 8 and 16 threads share one local, one secret and one public key (Arc) and run mixed operations - encrypt/decrypt, sign/verify (also through clones), failing decrypt/verify, "
                        "PIE wrap/unwrap, clone and drop, ids, wrong-password unwrap; every result checked against the sequential oracle (decrypts / verifies / equals), then deterministic fingerprints of the keys "
                        "(injected-nonce token, raw bytes, ids) compared before / after the history and against a fresh re-parsed copy")
-    ctx.cov["partial"] = "data races inside aws-lc / libsodium and the validity of `unsafe impl Send/Sync` cannot be exhibited by the Lean model; thorough tier is the place for a ThreadSanitizer run (supporting)"
+    ctx.cov["partial"] = "data races inside aws-lc / libsodium and the validity of `unsafe impl Send/Sync` cannot be exhibited by the Lean model; no ThreadSanitizer / helgrind run is made (the C libraries are not instrumented and helgrind does not understand Rust atomics)"
 
 
 # ------------------------------------------------------------------ C18
@@ -847,6 +891,101 @@ def run_c18(ctx):
 
 
 # ------------------------------------------------------------------ C19
+def c19_smoke(ctx, info, featscan):
+    """reduced builds behave like the full one: build /verif/smoke per crate x feature set, run the same operation lines, compare"""
+    import subprocess, os, threading, shutil, checklib
+    SMOKE = os.path.join(checklib.VERIF, "smoke")
+    lock = os.path.join(SMOKE, "Cargo.lock")
+    if not os.path.exists(lock):
+        shutil.copy("/repo/Cargo.lock", lock)
+    rc, ops, err = checklib.sh([checklib.PM, "gen", "c19smoke", ctx.tier], env={"VERIF_SEED": str(ctx.seed)}, timeout=1200)
+    if rc != 0:
+        ctx.k_broken.append({"kind": "generator", "stream": "smoke", "detail": err[-800:]})
+        return
+    need = {"lopen": "decrypting", "lseal": "encrypting", "lrt": "encrypting", "popen": "verifying", "psign": "signing", "prt": "signing", "kpub": "signing",
+            "id": "id", "idparse": "id", "pieopen": "pie-wrap", "piert": "pie-wrap", "pwopen": "pbkw", "pwrt": "pbkw", "sealopen": "pke", "sealrt": "pke"}
+    fails, stats = [], {"builds": 0, "lines": 0, "available": 0, "compared": 0}
+    lockm = threading.Lock()
+
+    def worker(crate):
+        v = crate[-2:]                      # v1..v4
+        names, feats = info[crate]["names"], info[crate]["features"]
+        lines = [l for l in ops.splitlines() if l.split(" ")[1:2] == [v]]
+        text = ("\n".join(lines) + "\n").encode()
+        env = dict(os.environ, CARGO_NET_OFFLINE="true", CARGO_TARGET_DIR=os.path.join(checklib.BUILD, "target-smoke-" + v))
+        def build_run(fl):
+            cmd = ["cargo", "build", "--release", "--offline", "-q", "--features", ",".join([v] + fl)]
+            p = subprocess.run(cmd, cwd=SMOKE, env=env, stdout=subprocess.PIPE, stderr=subprocess.PIPE)
+            if p.returncode != 0:
+                return None, [l for l in p.stderr.decode("utf-8", "replace").splitlines() if l.startswith("error")][:3]
+            q = subprocess.run([os.path.join(env["CARGO_TARGET_DIR"], "release", "pm-smoke")], input=text, stdout=subprocess.PIPE, stderr=subprocess.PIPE)
+            return q.stdout.decode("utf-8", "replace").splitlines(), []
+        full = sorted(featscan.closure(feats, names))
+        ref, errs = build_run(full)
+        with lockm:
+            stats["builds"] += 1
+        if ref is None or len(ref) != len(lines):
+            with lockm:
+                fails.append(("feat-smoke %s full" % crate, "the smoke binary does not build / run against %s with all features: %s" % (crate, " | ".join(errs)[:300]), "%s/smoke/full" % crate))
+            return
+        if ctx.tier == "thorough":
+            seen = {}
+            for mask in range(1 << len(names)):
+                C = frozenset(featscan.closure(feats, [names[i] for i in range(len(names)) if mask >> i & 1]))
+                seen.setdefault(C, None)
+            sets = sorted((sorted(c) for c in seen), key=lambda c: (len(c), c))
+        else:
+            sets = [[]] + [sorted(featscan.closure(feats, [f])) for f in ("verifying", "decrypting", "id", "pie-wrap", "pke") if f in names]
+        for fl in sets:
+            if fl == full:
+                continue
+            out, errs = build_run(fl)
+            with lockm:
+                stats["builds"] += 1
+            tag = "+".join(fl) or "none"
+            if out is None:
+                # "does not build" is reported by the cargo-check stream; here only note it
+                with lockm:
+                    fails.append(("feat-smoke %s %s" % (crate, tag), "the smoke binary does not build against %s with features [%s]: %s" % (crate, ",".join(fl), " | ".join(errs)[:300]), "%s/smoke-build/%s" % (crate, tag)))
+                continue
+            if len(out) != len(lines):
+                with lockm:
+                    fails.append(("feat-smoke %s %s" % (crate, tag), "smoke binary died on the op stream (reduced build)", "%s/smoke-crash/%s" % (crate, tag)))
+                continue
+            for l, a, b in zip(lines, ref, out):
+                with lockm:
+                    stats["lines"] += 1
+                opn = l.split(" ")[0]
+                if b == "n/a":
+                    # availability is demanded only when the operation's own feature AND the feature that brings the key kind are enabled
+                    kindneed = {"local": "decrypting", "public": "verifying", "secret": "signing", "pkesecret": "pke", "pkepublic": "pke"}
+                    kn = l.split(" ")[2] if opn in ("id", "idparse", "pieopen", "piert", "pwopen", "pwrt") else None
+                    kind_ok = kn is None or opn == "idparse" or kindneed.get(kn) in fl
+                    if opn in need and need[opn] in fl and kind_ok and a != "n/a":
+                        with lockm:
+                            fails.append((l, "operation `%s` is not available in the %s build with features [%s] although `%s` is enabled" % (opn, crate, ",".join(fl), need[opn]), "%s/smoke-missing/%s/%s" % (crate, tag, opn)))
+                    continue
+                with lockm:
+                    stats["available"] += 1
+                    ctx.distinct.add(("smoke", crate, tag, opn, a[:6]))
+                if a != b:
+                    with lockm:
+                        fails.append((l, "the %s build with features [%s] answers `%s` where the full build answers `%s`" % (crate, ",".join(fl), b[:120], a[:120]), "%s/smoke-differs/%s/%s" % (crate, tag, opn)))
+                else:
+                    with lockm:
+                        stats["compared"] += 1
+    th = [threading.Thread(target=worker, args=(c,)) for c in featscan.CRATES]
+    for t in th:
+        t.start()
+    for t in th:
+        t.join()
+    for op, clause, key in fails[:50]:
+        ctx.o_fail.append({"stream": "smoke", "op": op, "impl": "-", "model": "-", "clause": clause, "key": key})
+    ctx.cov["evaluations"] += stats["lines"]
+    ctx.cov["streams"]["smoke"] = dict(stats, failures=len(fails))
+    print("  smoke builds=%d lines=%d available=%d equal=%d failures=%d" % (stats["builds"], stats["lines"], stats["available"], stats["compared"], len(fails)), flush=True)
+
+
 def run_c19(ctx):
     import featscan, subprocess, os, threading, checklib
     info = getattr(ctx, "feat_info", None) or featscan.emit()[1]
@@ -915,7 +1054,11 @@ def run_c19(ctx):
         return None
     run_stream(ctx, "feature-sets", [], policy="full", oracle=oracle, ops="\n".join(ops) + "\n", impl_lines=impl_lines,
                nontrivial=lambda o, i: tuple(o.split(" ")[1:]))
-    ctx.cov["rule"] = ("cargo check --no-default-features --features S for distinct feature closures of paseto-v1..v4 (quick: empty set, every single feature, the full set and cross pairs; thorough: all distinct closures), "
+    c19_smoke(ctx, info, featscan)
+    ctx.cov["rule"] = ("reduced-build smoke binaries: /verif/smoke built per crate with all features (reference) and with reduced feature sets (quick: none, verify-only, decrypt-only, each single PASERK operation; thorough: every distinct closure); "
+                       "every operation available in the reduced build (availability decided by the trait bound, not by cfg) must print exactly what the full build prints on tokens, key texts, ids and wrapped keys made by the full library; "
+                       "an operation whose feature is enabled must be available. "
+                       "cargo check --no-default-features --features S for distinct feature closures of paseto-v1..v4 (quick: empty set, every single feature, the full set and cross pairs; thorough: all distinct closures), "
                        "plus paseto-core with/without serde and paseto-json with/without claims; the Lean consistency predicate over the scanned cfg gates must predict 'builds' for each")
     ctx.cov["partial"] = "cargo / rustc decide what builds; the gate scan is syntactic (explicit paths to optional crates and gated sibling items)"
 
